@@ -55,6 +55,12 @@ theorem exec_seq_ret {fuel : Nat} {a b : Stmt} {st st' : St} {v : Val} (h : exec
 theorem exec_seq_fault {fuel : Nat} {a b : Stmt} {st : St} {f : Fault} (h : exec fuel a st = .fault f) :
     exec fuel (.seq a b) st = .fault f := by simp [exec, h]
 
+theorem exec_ite_true {fuel : Nat} {c : Expr} {a b : Stmt} {st st' : St} (h : testOf (some c) st = .ok (true, st')) :
+    exec fuel (.ite c a b) st = exec fuel a st' := by simp [exec, h]
+
+theorem exec_ite_false {fuel : Nat} {c : Expr} {a b : Stmt} {st st' : St} (h : testOf (some c) st = .ok (false, st')) :
+    exec fuel (.ite c a b) st = exec fuel b st' := by simp [exec, h]
+
 theorem exec_while (fuel : Nat) (c : Expr) (body : Stmt) (st : St) :
     exec fuel (.while c body) st = loop (testOf (some c)) (exec fuel body) (stepOf none) fuel st := by simp [exec]
 
@@ -274,5 +280,35 @@ theorem exec_inl_var {fuel : Nat} {args : Args} {nl : Nat} {body : Stmt} {st st1
     (hi : i < st1.loc.length) :
     exec fuel (.inl (some (.var i)) .ptr args nl body) st = .normal { mem := st'.mem, loc := st1.loc.set i (.ptr b o) } := by
   simp [exec, ha, hb, evalL, convert, writePlace, hi, Except.bind]
+
+end MiniC
+
+namespace MiniC
+
+/-- a block whose bytes are `pre`, a NUL and anything behind it holds the C string `pre` -/
+theorem MemBytes.cstr0 {m : Mem} {b : Nat} {pre rest : List UInt8} (h : MemBytes m b (pre ++ 0 :: rest)) (hp : (0 : UInt8) ∉ pre) :
+    m.cstr b 0 = .ok pre := by
+  obtain ⟨blk, h1, h2, _, h3⟩ := h.blk
+  have hd : blk.cells = pre.map some ++ some 0 :: rest.map some := by rw [h3]; simp
+  simp only [Mem.cstr, Mem.block, h1, h2, bind, Except.bind, if_true, Int.lt_irrefl, if_false, Int.toNat_zero, Nat.zero_le,
+    List.drop_zero, hd, cstrFrom_str _ hp]
+
+end MiniC
+
+namespace MiniC
+
+theorem cstrFrom_drop (pre : List UInt8) (l : List (Option UInt8)) : (pre.map some ++ l).drop pre.length = l := by
+  have : (pre.map some).length = pre.length := by simp
+  rw [← this, List.drop_left]
+
+/-- the C string that starts behind the first `pre.length` bytes of a block -/
+theorem MemBytes.cstr_at {m : Mem} {b : Nat} {pre mid rest : List UInt8} (h : MemBytes m b (pre ++ mid ++ 0 :: rest))
+    (hp : (0 : UInt8) ∉ mid) : m.cstr b (pre.length : Int) = .ok mid := by
+  obtain ⟨blk, h1, h2, _, h3⟩ := h.blk
+  have hd : blk.cells = pre.map some ++ (mid.map some ++ some 0 :: rest.map some) := by rw [h3]; simp
+  have hneg : ¬ ((pre.length : Int) < 0) := by omega
+  have hle : pre.length ≤ blk.cells.length := by rw [hd]; simp
+  simp only [Mem.cstr, Mem.block, h1, h2, bind, Except.bind, if_true, hneg, if_false, Int.toNat_natCast, hle]
+  rw [hd, cstrFrom_drop, cstrFrom_str _ hp]
 
 end MiniC
